@@ -666,8 +666,20 @@ func (vc *VC) fresh(T types.Type, name string, st *State) Val {
 		return FuncVal{Sym: "fn!" + sanitize(name), Sig: t}
 	case *types.Interface:
 		return vc.freshIface(T, name, st)
+	case *types.Map:
+		// an arbitrary non-nil map: unknown key set, values abstract or unknown
+		mv := vc.makeMap(st, T, name).(MapVal)
+		mo := st.mem[mv.Cell].(mapObj)
+		mo.Present = vc.freshTerm(name+".present", mo.Present.S)
+		for i := range mo.Vals {
+			mo.Vals[i] = vc.freshTerm(name+".vals", mo.Vals[i].S)
+		}
+		mo.Count = vc.freshTerm(name+".count", mo.Count.S)
+		st.Fact(vc.iLe(vc.idx(0), mo.Count, true))
+		st.mem[mv.Cell] = mo
+		return mv
 	}
-	panic(fmt.Sprintf("fresh: unsupported type %v", T))
+	panic(execError{fmt.Sprintf("fresh: unsupported type %v", T)})
 }
 
 var maxLenBound = new(big.Int).Lsh(big.NewInt(1), 56)
